@@ -414,13 +414,18 @@ func oracle(ops, outs []string) *corr.Violation {
 			if !ok {
 				continue
 			}
-			if e.dk != "v" && e.dk != "p" {
-				return nil // outside the domain
+			isSliceTag := false
+			for _, t := range sliceTags {
+				isSliceTag = isSliceTag || t == e.tag
+			}
+			// the domain: Data is T or *T, as the contracts emit it; the blobber-term tags carry []T
+			if (!isSliceTag && e.dk != "v" && e.dk != "p") || (isSliceTag && e.dk != "s") {
+				return nil
 			}
 			if e.typ != int(event.TypeStats) {
 				continue
 			}
-			em[e.tag] = append(em[e.tag], e.items[0])
+			em[e.tag] = append(em[e.tag], e.items...)
 		case "merge":
 			pm = parseMergeLine(outs[i])
 			if !pm.ok {
